@@ -4,7 +4,7 @@
    Nothing but statements here. *)
 From Coq Require Import List NArith ZArith Bool String.
 From VRL Require Import Base.Bytes Base.Value Base.Lit Model.ValueCrud Model.Kind Model.KindCrud Model.KindDomains
-  Proofs.KindBasics Proofs.KindMergeProofs Proofs.KindGetProofs Proofs.KindSupersetProofs Proofs.KindInsertProofs.
+  Proofs.KindBasics Proofs.KindMergeProofs Proofs.KindGetProofs Proofs.KindSupersetProofs Proofs.KindInsertProofs Proofs.KindRemoveProofs.
 Import ListNotations.
 Local Open Scope string_scope.
 Local Open Scope list_scope.
@@ -132,6 +132,77 @@ Proof.
          (k_array (mkC [(0%nat, Kind (mkP false true false false false false false false) None None);
                         (1%nat, Kind (mkP false true false false false false false true) None None)] (UExact k_undefined))),
          [SIndex 3], (VInt 2), (Kind (mkP false true false false false false false false) None None).
+  vm_compute. auto 10.
+Qed.
+
+(* ---------- remove ---------- *)
+
+(* removing a path from a member yields a member of the type-level removal, and the type-level removal
+   does not hit its arithmetic-overflow panic — for paths whose last segment is a field (or the root),
+   with compaction off or a single segment, inside rm_ok.
+   FULL STATEMENT NOT PROVED: the same for a last segment that is an index (element removal through
+   Collection<Index>::remove_shift, inside shift_ok) — exercised by the correspondence/oracle run only. *)
+Theorem C19_remove_sound_fields_partial : forall (v : value) (k : kind) (p : path) (compact : bool),
+  wf_value v = true -> last_field p = true -> remove_ok k p compact = true -> member v k = true ->
+  snd (kremove k p compact) = false
+  /\ member (snd (remove v p compact)) (fst (fst (kremove k p compact))) = true.
+Proof. exact remove_sound_fields. Qed.
+Print Assumptions C19_remove_sound_fields_partial.
+
+(* del(x[0]) on [1, "a", true]: remove_shift moves only one element *)
+Theorem C19_remove_shift_refuted : exists (v : value) (k : kind) (p : path),
+  remove_ok k p false = false /\ wf_value v = true /\ member v k = true
+  /\ snd (remove v p false) = VArr [VBytes (hx "61"); VBool true]
+  /\ member (snd (remove v p false)) (fst (fst (kremove k p false))) = false.
+Proof.
+  exists (VArr [VInt 1; VBytes (hx "61"); VBool true]),
+         (k_array (mkC [(0%nat, Kind (mkP false true false false false false false false) None None);
+                        (1%nat, Kind (mkP true false false false false false false false) None None);
+                        (2%nat, Kind (mkP false false false true false false false false) None None)] (UExact k_undefined))),
+         [SIndex 0].
+  vm_compute. auto 10.
+Qed.
+
+(* removal inside an element that is not known is computed on a temporary and thrown away *)
+Theorem C19_remove_inside_unknown_refuted : exists (v : value) (k : kind) (p : path),
+  remove_ok k p false = false /\ wf_value v = true /\ member v k = true
+  /\ member (snd (remove v p false)) (fst (fst (kremove k p false))) = false.
+Proof.
+  exists (VObj [(hx "7a", VObj [(hx "61", VInt 1)])]),
+         (k_object (mkC [] (UExact (k_object (mkC [(hx "61", Kind (mkP false true false false false false false false) None None)]
+                                                  (UExact k_undefined)))))),
+         [SField (hx "7a"); SField (hx "61")].
+  vm_compute. auto 10.
+Qed.
+
+(* the usize underflow of the negative-index branch (a panic when overflow checks are on) *)
+Theorem C19_remove_negidx_panic_refuted : exists (k : kind) (p : path),
+  remove_ok k p false = false /\ snd (kremove k p false) = true.
+Proof.
+  exists (k_array (mkC [(0%nat, Kind (mkP false false false true false false false false) None None)] (UInf inf_any))),
+         [SIndex (-2)].
+  vm_compute. auto.
+Qed.
+
+(* ---------- merge ---------- *)
+
+(* CollisionStrategy::Union is union *)
+Theorem C19_merge_union_sound : forall (a b : kind) (v : value),
+  union_compat a b = true -> member v a = true \/ member v b = true -> member v (merge a b Union) = true.
+Proof. exact union_sound. Qed.
+Print Assumptions C19_merge_union_sound.
+
+(* CollisionStrategy::Overwrite against the shallow right-biased merge of two objects: not proved, and
+   false in general — the unknown kinds are merged with overwrite although unknown fields' values are
+   not merged at all *)
+Theorem C19_merge_overwrite_refuted : exists (a b : kind) (va vb : value),
+  member va a = true /\ member vb b = true /\ vb = VObj [(hx "78", VObj [])] /\ va = VObj []
+  /\ member vb (merge a b Overwrite) = false.
+Proof.
+  exists (k_object (mkC [] (UExact (k_object (mkC [(hx "61", Kind (mkP false true false false false false false false) None None)]
+                                                  (UExact k_undefined)))))),
+         (k_object (mkC [] (UExact (k_object (mkC [] (UExact k_undefined)))))),
+         (VObj []), (VObj [(hx "78", VObj [])]).
   vm_compute. auto 10.
 Qed.
 
